@@ -561,16 +561,28 @@ def tree_growth_sessions(tree, seed, tier):
     ]
     if tier != "quick":
         shapes = shapes * 4
-    for n, (before, after) in enumerate(shapes):
+    shapes = [(b, a, False, True) for b, a in shapes]
+    # The content of an existing header changes between two invocations while its time stamp moves
+    # backwards, stays, or moves forwards (a release unpacked over a vendored copy, `cp -p`,
+    # `rsync -a`, a branch switch followed by `git restore`'s time stamps, an ordinary edit).
+    # Whatever the generator remembers about the first revision must not be served for the second.
+    withnew = {"units": [tree.units[0], addedunit.STEM], "constants": [], "io": True}
+    allsel = {"units": "ALL", "constants": [], "io": True}
+    revs = [(allsel, allsel, True, {"rev": 2, "mtime": "older"}), (withnew, withnew, True, {"rev": 2, "mtime": "equal"}), (withnew, allsel, True, {"rev": 2, "mtime": "newer"}),
+            (allsel, withnew, {"rev": 2, "mtime": "equal"}, True)]
+    if tier != "quick":
+        revs = revs + [(b, a, x, dict(y, mtime=m) if isinstance(y, dict) else y) for b, a, x, y in revs for m in ("older", "equal", "newer")]
+    shapes += revs
+    for n, (before, after, added0, added1) in enumerate(shapes):
         env = {"listdir": {UNITS_DIR: _listdir_spec(rng), CONSTANTS_DIR: _listdir_spec(rng)}, "listdir_default": _listdir_spec(rng), "extra_entries": {}, "git": "ok:growth", "stdout_mode": "block", "stdout_bufsize": 4096, "crlf": False, "git_repo": "tracked", "clock": ["2026-09-26T12:00:00"]}
         hs = HASHSEEDS[n % len(HASHSEEDS)]
         invs = []
-        for k, (sel, added) in enumerate(((before, False), (after, True), (after, True))):
+        for k, (sel, added) in enumerate(((before, added0), (after, added1), (after, added1))):
             full = dict({"main_files": [], "version_id": "growth", "opt_order": ["units", "constants", "noio", "version"]}, **sel)
             e = dict(env)
             if added:
-                e["added_unit"] = True
-                full["added_unit"] = True
+                e["added_unit"] = added
+                full["added_unit"] = added
             invs.append({"seed": seed, "run": "growth-%d/%d" % (n, k), "hashseed": hs, "selection": full, "env": e, "faults": [], "toolchain": {"a": list(all_toolchains()[n % 6])}, "probe": {"include_order": None, "api": []}})
         out.append({"seed": seed, "run": "growth-%d" % n, "hashseed": hs, "session": invs})
     return out
